@@ -8,6 +8,7 @@ from vlib.programs import gen_program, Built, World, Journal, describe, playback
 from vlib.spies import SpyCassette, SpyRandom
 
 PRE = ['raise_user', 'raise_interrupt', 'discard', 'force']
+PRE_TRANSPARENCY_ONLY = ['disable']    # used by C04 / C18; not a capture fault of C05's quantifier
 ON_IN = ['badkey', 'body_discard', 'body_force', 'body_raise_user', 'body_raise_interrupt', 'value_unencodable']
 ON_OUT = ['badkey', 'body_discard', 'body_force', 'body_raise_user', 'body_raise_interrupt', 'value_unencodable']
 # faults that are behaviour of the service itself (they happen in the twin and in a replay as well)
@@ -117,6 +118,8 @@ def execute(prog, faults, extractor=None, fail_save=False, rate=None, enabled=Tr
     res.utc_before = _now_utc()
     res.t_before = _t.time()
     res.outcome = res.live.run('live')
+    if enabled and not res.recorder.recording_enabled:
+        res.recorder.enable_recording()       # a 'disable' kill switch fired during the run; later runs record again
     res.t_after = _t.time()
     res.utc_after = _now_utc()
     res.spy_events = res.spy.log[res.log_start:]
